@@ -1,6 +1,6 @@
 (** * C12 -- No two visible variables share a name; references bind lexically.  Statements only. *)
 From Coq Require Import String ZArith List Bool Arith.
-From NSL Require Import Base.Types Base.Syntax Spec.Scope Model.Names Proofs.ScopeProofs.
+From NSL Require Import Base.Types Base.Syntax Spec.Scope Model.Names Proofs.ScopeProofs Proofs.UsesProofs.
 From NSLDyn Require Gen_Shapes.
 Import ListNotations.
 Open Scope string_scope.
@@ -21,13 +21,14 @@ Proof. exact vn_stmt_decl. Qed.
 Theorem C12_use_lookup_exact : forall c vis e, rep c vis -> pok (ct_expr c e) = bound vis e.
 Proof. exact ct_expr_bound. Qed.
 
-(** Full statement for uses (typing rejects a use after the scope closed, for whole programs).  PARTIAL: the
-    expression-level lemma above and the same-scope lemma below are proved; the statement-level induction that
-    composes them along ComputeTypes' traversal is covered by the correspondence only. *)
-Definition C12_uses_full_statement : Prop :=
-  forall m, decl_module m = true -> pok (ct_module m) = use_module m.
+(** Uses, whole programs: in a program without redeclarations the typing scopes of ComputeTypes (a stack of tables pushed
+    per block / loop / if / function, looked up innermost first, stopping at the first unknown name) accept exactly
+    the programs in which every used name -- in initialisers, conditions, loop headers, unbraced branches, after a
+    scope has closed -- is visible where it stands in the flat lexical specification. *)
+Theorem C12_uses_exact : forall m, decl_module m = true -> pok (ct_module m) = use_module m.
+Proof. exact ct_module_use. Qed.
 
-Theorem C12_same_scope_is_visible_partial : forall c vis x, rep c vis ->
+Theorem C12_same_scope_is_visible : forall c vis x, rep c vis ->
     pok (fst (ct_register c x)) = false -> mem x vis = true.
 Proof. exact ct_register_implies_visible. Qed.
 
@@ -48,4 +49,5 @@ Proof. vm_compute. repeat split; reflexivity. Qed.
 
 Eval compute in "ASSUMPTIONS C12_redeclaration_exact"%string. Print Assumptions C12_redeclaration_exact.
 Eval compute in "ASSUMPTIONS C12_use_lookup_exact"%string. Print Assumptions C12_use_lookup_exact.
+Eval compute in "ASSUMPTIONS C12_uses_exact"%string. Print Assumptions C12_uses_exact.
 Eval compute in "END"%string.
